@@ -30,7 +30,8 @@ RULE = ("Hypothesis builds a Finnis-Sinclair model (1..4 species, independent de
         "undeclared, shuffled entries), a format (setfl_fs, DL_POLY_EAM_fs, excel_eam_fs), a route (API function, "
         "API class, potable) and a cluster of 3..6 typed atoms on grid nodes. Each written file is read back by "
         "an independent parser; every density slot and the per-atom densities of the cluster computed by the "
-        "consumer's lookup rule are compared with the model. Non-trivial = >= 2 species and some pair whose A->B "
+        "consumer's lookup rule are compared with the model. A rewrite stratum writes the same objects 2..3 times while one density callable is "
+        "re-parametrised in between. Non-trivial = >= 2 species and some pair whose A->B "
         "and B->A definitions differ (or one is undeclared); distinct = canonical JSON.")
 ASSUMPTIONS = [
     "consumer rules: LAMMPS eam/fs reads the density at an i-site from a j-neighbour from array number type(i) "
